@@ -16,7 +16,12 @@
 EXTENDS Lattice, TLC
 
 CONSTANTS Family,      \* "radial" | "cyl"
-          DR, DZ, Z0
+          DR, DZ, Z0,
+          CentralRule, \* which copies of a padded candidate are kept: "closed" z_min <= z <= z_max (the implementation
+                       \* before the repair of F18: a centre exactly on the seam is kept twice) | "halfopen" z_min <= z < z_max
+          SpanRule     \* when the padded analysis is abandoned: "one-period" a cluster starting at the padded edge that is
+                       \* longer than one period (before the repair: also true for non-winding clusters longer than a
+                       \* period) | "whole" a cluster spanning the whole padded image (exactly the winding clusters)
 
 VARIABLES mask,        \* set of cells <<i, j>>
           pc,          \* "start" | "padded" | "single" | "central" | "done"
@@ -76,7 +81,9 @@ Start ==
     /\ pc = "start" /\ Family = "cyl"
     /\ IF PZ
        THEN LET cs == CandsOf(Padded, 3 * Nz)
-                span == \E k \in Range(Len(cs)) : MinJ(cs[k].cells) = 0 /\ MaxJ(cs[k].cells) + 1 > Nz
+                span == \E k \in Range(Len(cs)) : /\ MinJ(cs[k].cells) = 0
+                                                   /\ IF SpanRule = "one-period" THEN MaxJ(cs[k].cells) + 1 > Nz
+                                                      ELSE MaxJ(cs[k].cells) + 1 = 3 * Nz
             IN IF span THEN spanning' = TRUE /\ cands' = <<>> /\ pc' = "single"
                ELSE spanning' = FALSE /\ cands' = cs /\ pc' = "central"
        ELSE spanning' = FALSE /\ cands' = <<>> /\ pc' = "single"
@@ -94,7 +101,8 @@ Central ==
     /\ pc = "central"
     /\ result' = SelectSeq(cands, LAMBDA cd :
                      /\ ZNum(cd, Nz * DZ) >= 2 * cd.vc * Z0
-                     /\ ZNum(cd, Nz * DZ) <= 2 * cd.vc * (Z0 + Nz * DZ))
+                     /\ IF CentralRule = "closed" THEN ZNum(cd, Nz * DZ) <= 2 * cd.vc * (Z0 + Nz * DZ)
+                        ELSE ZNum(cd, Nz * DZ) < 2 * cd.vc * (Z0 + Nz * DZ))
     /\ pc' = "done"
     /\ UNCHANGED <<mask, cands, radius, spanning>>
 
@@ -111,21 +119,22 @@ SingleCorrect == (Done /\ Family = "cyl" /\ (~PZ \/ spanning)) =>
     /\ \A k \in Range(Len(result)) : result[k].cells \in on /\ result[k].w = SumW(result[k].cells)
     /\ \A k, m \in Range(Len(result)) : k # m => result[k].cells # result[m].cells
 
-\* periodic z: every non-winding torus component touching the axis is found with its volume weight and
-\* its lifted axial moment (modulo the period); at most two copies of it survive the central filter
-\* (two only when its centre sits exactly on the seam; the overlap removal then keeps one)
+\* periodic z: every non-winding torus component touching the axis is found EXACTLY ONCE, with its volume weight and
+\* its lifted axial moment (modulo the period) -- also when its centre sits exactly on the seam
 Unpad(C) == {<<c[1], c[2] % Nz>> : c \in C}
-PeriodicCorrect == (Done /\ Family = "cyl" /\ PZ /\ ~spanning) =>
+WindingOnAxis == \E C \in CompsP(mask) : OnAxis(C) /\ Winding(Lift(C))
+PeriodicCorrect == (Done /\ Family = "cyl" /\ PZ /\ ~WindingOnAxis) =>
     LET on == {C \in CompsP(mask) : OnAxis(C)} IN
     /\ \A C \in on :
          LET Lf == Lift(C)
              hits == {k \in Range(Len(result)) : Unpad(result[k].cells) = C /\ result[k].vc = Cardinality(C)}
-         IN ~Winding(Lf) =>
-              /\ Cardinality(hits) \in {1, 2}
-              /\ \A k \in hits : /\ result[k].w = SumW(C)
-                                /\ (result[k].sz - SumLift(Lf, 2)) % (Nz * result[k].vc) = 0
+         IN /\ Cardinality(hits) = 1
+            /\ \A k \in hits : /\ result[k].w = SumW(C)
+                              /\ (result[k].sz - SumLift(Lf, 2)) % (Nz * result[k].vc) = 0
     /\ \A k \in Range(Len(result)) : Unpad(result[k].cells) \in on /\ Cardinality(Unpad(result[k].cells)) = result[k].vc
     /\ (on = {}) => result = <<>>
+\* the padded analysis is abandoned exactly when a cluster touching the axis winds around the periodic axis
+SpanSound == (Done /\ Family = "cyl" /\ PZ) => (spanning <=> WindingOnAxis)
 
 NoAxisNoDroplet == (Done /\ Family = "cyl" /\ ~(\E c \in mask : c[1] = 0)) => result = <<>>
 
